@@ -50,6 +50,7 @@ def alphabet(tier: str, variant: str = "main") -> Tuple[List[List[tuple]], List[
         for ttl in (4500, 1, 0):
             d.append([PX(ttl)])
         d.append([PXU(4500)])
+        d.append([PX(4500, FL)])  # the same pointer seen with the other value of the cache-flush bit
         for mk in (SX, TX):
             d += [[mk(120)], [mk(0)], [mk(120, FL)]]
         d.append([SX2(120, FL)])
